@@ -4,6 +4,7 @@ import (
 	"fmt"
 	"sort"
 	"strconv"
+	"sync"
 
 	"github.com/paulmach/osm"
 
@@ -483,9 +484,28 @@ func c10Exec(c fw.Case) *fw.Result {
 		if fn != len(ns) || fw2 != len(ws) || fr != len(rs) {
 			res.Violatef("C10/helpers/FeatureIDs.Counts", "FeatureIDs.Counts() = %d,%d,%d", fn, fw2, fr)
 		}
+		// a sort permutes: every object that went in comes out, exactly once (objects that
+		// happen to carry the same kind, ref and version are still different objects)
+		before := map[osm.Element]int{}
+		for _, e := range els {
+			before[e]++
+		}
 		eids.Sort()
 		fids.Sort()
 		els.Sort()
+		after := map[osm.Element]int{}
+		for _, e := range els {
+			after[e]++
+		}
+		for e, n := range before {
+			if after[e] != n {
+				res.Violatef(fmt.Sprintf("C10/sort-els-not-a-permutation/%d", len(ts)), "Elements.Sort: object %v (%p) occurs %d times after the sort, %d before", e.ElementID(), e, after[e], n)
+				break
+			}
+		}
+		if len(after) != len(before) {
+			res.Violatef(fmt.Sprintf("C10/sort-els-not-a-permutation/%d", len(ts)), "Elements.Sort: %d distinct objects after the sort, %d before", len(after), len(before))
+		}
 		sort.SliceStable(ts, func(i, j int) bool { return c10Less(ts[i], ts[j]) })
 		for i, t := range ts {
 			if eids[i].Type() != t.kind || eids[i].Ref() != t.ref || eids[i].Version() != t.ver {
@@ -507,6 +527,73 @@ func c10Exec(c fw.Case) *fw.Result {
 		if len(ts) > 0 {
 			res.Sample = map[string]any{"n": len(ts), "first": fmt.Sprint(ts[0]), "last": fmt.Sprint(ts[len(ts)-1])}
 		}
+	case "sort-concurrent":
+		// independent slices sorted at the same time on several goroutines: the sorts share
+		// nothing the caller can see, so each must come out right
+		G := int(c.Int("goroutines"))
+		rounds := int(c.Int("rounds"))
+		type bad struct{ key, msg string }
+		bads := make([][]bad, G)
+		var wg sync.WaitGroup
+		start := make(chan struct{})
+		for g := 0; g < G; g++ {
+			wg.Add(1)
+			go func(g int) {
+				defer wg.Done()
+				gr := gen.New(gen.Sub(c.Seed, "c10conc", g), "g")
+				<-start
+				for round := 0; round < rounds; round++ {
+					n := 2 + gr.Intn(300)
+					ts := make([]c10Triple, n)
+					els := make(osm.Elements, n)
+					eids := make(osm.ElementIDs, n)
+					fids := make(osm.FeatureIDs, n)
+					for i := range ts {
+						k := []osm.Type{osm.TypeNode, osm.TypeWay, osm.TypeRelation}[gr.Intn(3)]
+						ts[i] = c10Triple{k, int64(gr.Intn(40)), gr.Intn(5)}
+						eids[i] = osm.ElementID(c10ObjectID(ts[i]))
+						fids[i] = eids[i].FeatureID()
+						switch k {
+						case osm.TypeNode:
+							els[i] = &osm.Node{ID: osm.NodeID(ts[i].ref), Version: ts[i].ver}
+						case osm.TypeWay:
+							els[i] = &osm.Way{ID: osm.WayID(ts[i].ref), Version: ts[i].ver}
+						default:
+							els[i] = &osm.Relation{ID: osm.RelationID(ts[i].ref), Version: ts[i].ver}
+						}
+					}
+					els.Sort()
+					eids.Sort()
+					fids.Sort()
+					sort.SliceStable(ts, func(i, j int) bool { return c10Less(ts[i], ts[j]) })
+					for i, t := range ts {
+						e := els[i].ElementID()
+						if e.Type() != t.kind || e.Ref() != t.ref || e.Version() != t.ver {
+							bads[g] = append(bads[g], bad{"C10/sort-concurrent/els", fmt.Sprintf("goroutine %d round %d: Elements.Sort position %d of %d is %v, want %v", g, round, i, n, e, t)})
+							break
+						}
+						if eids[i].Type() != t.kind || eids[i].Ref() != t.ref || eids[i].Version() != t.ver {
+							bads[g] = append(bads[g], bad{"C10/sort-concurrent/eids", fmt.Sprintf("goroutine %d round %d: ElementIDs.Sort position %d wrong", g, round, i)})
+							break
+						}
+						if fids[i].Type() != t.kind || fids[i].Ref() != t.ref {
+							bads[g] = append(bads[g], bad{"C10/sort-concurrent/fids", fmt.Sprintf("goroutine %d round %d: FeatureIDs.Sort position %d wrong", g, round, i)})
+							break
+						}
+					}
+				}
+			}(g)
+		}
+		close(start)
+		wg.Wait()
+		for _, bs := range bads {
+			for _, b := range bs {
+				res.Violatef(b.key, "%s", b.msg)
+			}
+		}
+		res.Event(int64(G * rounds))
+		res.Add("concurrent_sorts", int64(3*G*rounds))
+		res.Eval(fmt.Sprintf("sort-concurrent/g%d", G))
 	case "reject":
 		for _, m := range c10Malformed {
 			if id, err := osm.ParseObjectID(m.s); err == nil {
@@ -627,7 +714,7 @@ func init() {
 		ID:    "C10",
 		Level: "exploration",
 		Rule: "sweep of (kind, ref, version): refs 0,1,2 and 2^j-1,2^j,2^j+1 for j=1..40 (<2^40) plus PRNG refs, versions at every byte/sign boundary plus PRNG versions, all seven kinds; " +
-			"order decided for all pairs by tuple-sorting and checking strict increase, plus explicit pairs; Sort helpers against an independent tuple sort on inputs in seven arrangements (random, sorted, reversed, history order with shuffled versions, a few adjacent swaps, by version, sorted but for the ends); malformed strings from a fixed table and a mutation grammar (separators, letters, and 28 kinds of non-ASCII-digit characters substituted into or inserted around the numbers: digits of other scripts, other numeric runes, white space of every width, separators, exponents, NUL, broken UTF-8). " +
+			"order decided for all pairs by tuple-sorting and checking strict increase, plus explicit pairs; Sort helpers against an independent tuple sort (and as a permutation of the very objects that went in; and on 8 goroutines sorting independent slices at once, plain and race builds) on inputs in seven arrangements (random, sorted, reversed, history order with shuffled versions, a few adjacent swaps, by version, sorted but for the ends); malformed strings from a fixed table and a mutation grammar (separators, letters, and 28 kinds of non-ASCII-digit characters substituted into or inserted around the numbers: digits of other scripts, other numeric runes, white space of every width, separators, exponents, NUL, broken UTF-8). " +
 			"A signature is (id family, kind, bit length of ref, version byte class) or (sort size class) or (malformed class); distinct_nontrivial counts distinct signatures.",
 		Assumptions: []string{
 			"changeset, note, user and bounds object ids carry no version (their public constructors take none); version is compared as 0 for them, and bounds has the single ref 0",
@@ -656,6 +743,9 @@ func init() {
 					n = int64(2048 + (i*37)%3000) // beyond any small-slice special case of a sort
 				}
 				cs = append(cs, fw.Case{Kind: "sort", Seed: gen.Sub(seed, "c10sort", i), P: map[string]int64{"n": n, "nrefs": 3, "nvers": 2, "arr": int64(i / 2)}})
+			}
+			for i, v := range []string{"plain", "race"} {
+				cs = append(cs, fw.Case{Kind: "sort-concurrent", Variant: v, Seed: gen.Sub(seed, "c10conc", i), P: map[string]int64{"goroutines": 8, "rounds": int64(150 - 100*i)}})
 			}
 			cs = append(cs, fw.Case{Kind: "reject", Seed: gen.Sub(seed, "c10rej", 0), P: map[string]int64{"nrefs": 10, "nvers": 5}})
 			return fw.Number(cs)
